@@ -30,6 +30,7 @@ import CtyModel.Lemmas.WalkTrans
 import CtyModel.Lemmas.WalkReplace
 import CtyModel.Lemmas.WalkMarks
 import CtyModel.Lemmas.WalkRawEq
+import CtyModel.Lemmas.PathFnsTie
 namespace CtyModel
 namespace C19
 open Walk
@@ -621,6 +622,211 @@ example : (transform X2 Sched.sorted idCb tiedSet).2 = .ok ⟨.set .string, .sse
     Value.rawEquals X2 ⟨.set .string, .sset [0, 0] [.s "p", .s "q"]⟩ tiedSet = .ok true := by decide
 
 example : (unmarkDeepWithPaths X1 Sched.sorted sample).map (·.2.length) = .ok 2 := by rfl
+
+/-! ## The regenerated model
+
+`extract/translate_path.go` translates `GetAttrStep.Apply`, `IndexStep.Apply`, `Path.Apply`, `Path.LastStep`,
+`Path.Equals`, `Path.HasPrefix`, `Path.Copy`, the path constructors and `pathSetRules.Hash` / `Equivalent` /
+`SameRules` from go-cty's source into Lean on every check (`Generated/PathFns.lean`; the `Value` and `Type` methods
+they call are the hand-written operations model, `CtyModel/PathGo.lean` says how Go data is read).  The
+`generated_*_eq` theorems say that what the source text computes is what the hand-written model computes — value,
+error class and panic alike, for all inputs — so every theorem above about paths and path sets holds of the
+translated source; the `*_generated` corollaries state the property clauses directly about it.  A source edit that
+changes the meaning makes these proofs fail; an edit that leaves the translated fragment makes the extractor fail. -/
+
+/-- the two `Apply` methods of the steps, as written in the source, are the model's `PathStep.apply` -/
+theorem generated_step_apply_eq (s : PathStep) (v : Value) :
+    (match s with
+      | .getAttr n => Generated.PathFns.GetAttrStep_Apply n v
+      | .index k => Generated.PathFns.IndexStep_Apply k v) = s.apply v := by
+  cases s
+  · exact PathFnsTie.getAttrStep_apply_eq _ v
+  · exact PathFnsTie.indexStep_apply_eq _ v
+
+/-- `Path.Apply` as written in the source is the model's `Path.apply`: same value, same error class, same panic -/
+theorem generated_path_apply_eq (p : Path) (v : Value) : Generated.PathFns.Path_Apply p v = Path.apply p v :=
+  PathFnsTie.path_apply_eq p v
+
+/-- `Path.LastStep` as written in the source is the model's `Path.lastStep` -/
+theorem generated_path_lastStep_eq (p : Path) (v : Value) :
+    Generated.PathFns.Path_LastStep p v = Path.lastStep p v := PathFnsTie.path_lastStep_eq p v
+
+/-- `pathSetRules.Hash` as written in the source — which bytes are written per step kind included — is the model's hash -/
+theorem generated_hash_eq (p : Path) : Generated.PathFns.pathSetRules_Hash p = .ok (PathSet.hash p) :=
+  PathFnsTie.hash_eq p
+
+/-- `pathSetRules.Equivalent` as written in the source is the model's `PathSet.equiv`, for all paths -/
+theorem generated_equivalent_eq (p q : Path) :
+    Generated.PathFns.pathSetRules_Equivalent p q = PathSet.equiv p q := PathFnsTie.equivalent_eq p q
+
+/-- the rules built from the translated `Hash` and `Equivalent` are the model's rules -/
+theorem generated_rules_eq : PathFnsTie.genGoodRules = PathSet.goodRules := PathFnsTie.genGoodRules_eq
+
+/-- reported paths lead back, about the translated `Path.Apply` -/
+theorem walk_paths_lead_back_generated {X : SetOracle} (hX : IterPerm X) (root : Value)
+    (hs : shapedV root = true) (p : Path) (n : Value) (hv : (p, n) ∈ (walk X descend root).1) :
+    ∃ pos, nodeAt X root pos = some n ∧ pathAt X root pos = some p ∧
+      (noSetAt X root pos = true →
+        ∃ a, Generated.PathFns.Path_Apply p root = .ok a ∧ a.unmark = n.unmark ∧
+          ∀ m, m ∈ a.marks ↔ (m ∈ n.marks ∨
+            ∃ q s anc, pos = q ++ s ∧ s ≠ [] ∧ nodeAt X root q = some anc ∧ m ∈ anc.marks)) := by
+  simp only [generated_path_apply_eq]
+  exact walk_paths_lead_back hX root hs p n hv
+
+/-- one step, about the translated `GetAttrStep.Apply` / `IndexStep.Apply`: succeeds exactly when it names an
+existing member, never panics, returns a shaped value of a well-formed type -/
+theorem apply_step_ok_iff_exists_generated (s : PathStep) (v : Value) (hs : shapedV v = true)
+    (hw : Ty.wf v.ty = true)
+    (hk : (match s with | .index k => shapedV k | .getAttr _ => true) = true) :
+    let r := match s with
+      | .getAttr n => Generated.PathFns.GetAttrStep_Apply n v
+      | .index k => Generated.PathFns.IndexStep_Apply k v
+    (r.isOk = true ↔ stepExists s v = true) ∧ r.isPanic = false ∧
+      ∀ v', r = .ok v' → shapedV v' = true ∧ Ty.wf v'.ty = true := by
+  simp only [generated_step_apply_eq]
+  exact apply_step_ok_iff_exists s v hs hw hk
+
+/-- whole paths, about the translated `Path.Apply`: it succeeds exactly when every step names an existing member
+of the value reached by the steps before it, and does not panic -/
+theorem apply_ok_iff_steps_exist_generated (p : Path) (v : Value) (hs : shapedV v = true)
+    (hw : Ty.wf v.ty = true) (hk : keysShaped p = true) :
+    ((Generated.PathFns.Path_Apply p v).isOk = true ↔ stepsExist p v = true) ∧
+      (Generated.PathFns.Path_Apply p v).isPanic = false := by
+  rw [generated_path_apply_eq]
+  exact apply_ok_iff_steps_exist p v hs hw hk
+
+/-- `Path.LastStep`, about the translated source: nil step for the empty path; otherwise it succeeds exactly when
+every step but the last names an existing member, returns the last step, and never panics (in particular neither
+`p[:len(p)-1]` nor `p[len(p)-1]` is out of range) -/
+theorem lastStep_generated (p : Path) (v : Value) (hs : shapedV v = true)
+    (hw : Ty.wf v.ty = true) (hk : keysShaped p.dropLast = true) :
+    (p = [] → Generated.PathFns.Path_LastStep p v = .ok (v, none)) ∧
+    ((Generated.PathFns.Path_LastStep p v).isOk = true ↔ stepsExist p.dropLast v = true) ∧
+    (Generated.PathFns.Path_LastStep p v).isPanic = false ∧
+    (∀ w s, Generated.PathFns.Path_LastStep p v = .ok (w, s) → s = p.getLast? ∧ Path.apply p.dropLast v = .ok w) := by
+  rw [generated_path_lastStep_eq]
+  have ha := apply_ok_iff_steps_exist p.dropLast v hs hw hk
+  refine ⟨fun h => by subst h; rfl, ?_, ?_, ?_⟩
+  · rw [← ha.1]
+    cases hl : p.getLast? with
+    | none =>
+      have : p = [] := by simpa using hl
+      subst this; simp [Path.lastStep, Path.apply, Res.isOk]
+    | some l => simp only [Path.lastStep, hl]; cases Path.apply p.dropLast v <;> simp [Res.map, Res.isOk]
+  · cases hl : p.getLast? with
+    | none => simp [Path.lastStep, hl, Res.isPanic]
+    | some l =>
+      have := ha.2
+      simp only [Path.lastStep, hl]; cases h : Path.apply p.dropLast v <;> simp_all [Res.map, Res.isPanic]
+  · intro w s h
+    cases hl : p.getLast? with
+    | none =>
+      have : p = [] := by simpa using hl
+      subst this
+      simp only [Path.lastStep, List.getLast?_nil, Res.ok.injEq, Prod.mk.injEq] at h
+      simp [h.1.symm, h.2.symm, Path.apply]
+    | some l =>
+      simp only [Path.lastStep, hl] at h
+      cases ha' : Path.apply p.dropLast v <;> simp_all [Res.map]
+
+/-- the translated rules are lawful on paths whose index keys are known numbers or strings (marked or not) -/
+theorem pathset_rules_lawful_generated : PathFnsTie.genGoodRules.Lawful := by
+  rw [generated_rules_eq]; exact pathset_rules_lawful
+
+/-- the hash of the translated source writes one `#` for EVERY index step, whatever its key: two paths that differ
+only in their index keys hash alike (what `Equivalent` needs, since keys that are `Equals` need not be the same
+value — a folded-in key would separate `1` from a marked `1`) -/
+theorem hash_ignores_index_keys_generated (pre post : Path) (k k' : Value) :
+    Generated.PathFns.pathSetRules_Hash (pre ++ .index k :: post) =
+      Generated.PathFns.pathSetRules_Hash (pre ++ .index k' :: post) := by
+  simp only [generated_hash_eq, PathSet.hash]
+  have : ∀ pre : Path, PathSet.hashBytes (pre ++ .index k :: post) = PathSet.hashBytes (pre ++ .index k' :: post) := by
+    intro pre
+    induction pre with
+    | nil => simp [PathSet.hashBytes]
+    | cons s r ih => cases s <;> simp [PathSet.hashBytes, ih]
+  rw [this]
+
+/-- PathSet refines sets of paths for all histories, with the rules as translated from the source -/
+theorem pathset_refines_generated (ops : List (PathSet.PSOp PathSet.GoodPath))
+    (st : List (SetImpl PathSet.GoodPath))
+    (h : ∀ i, SetImpl.Inv PathFnsTie.genGoodRules (SetImpl.getReg st i)) :
+    let R := PathFnsTie.genGoodRules
+    let out := PathSet.psRun R PathSet.prefixesG ops st
+    (∀ i, SetImpl.Inv R (SetImpl.getReg out.1 i)) ∧
+    SetImpl.absRegs R out.1 = PathSet.psSpecRun R PathSet.prefixesG ops (SetImpl.absRegs R st) ∧
+    PathSet.PSOutsOk R PathSet.prefixesG (SetImpl.absRegs R st) ops out.2 := by
+  rw [generated_rules_eq] at h ⊢
+  exact pathset_refines ops st h
+
+/-- the `PathSet` methods that are more than a forwarded call — `AddAllSteps`, `Equal`, `Empty`, `List` — as written
+in the source, are the model's (`PathSet.addAll` of `prefixes`, `equal`, `isEmpty`, `list`), for any rules over paths -/
+theorem generated_pathset_methods_eq (R : Rules Path) (s o : SetImpl Path) (p : Path) :
+    Generated.PathFns.PathSet_AddAllSteps R s p = .ok (PathSet.addAll R s (PathSet.prefixes p)) ∧
+    Generated.PathFns.PathSet_Equal R s o = .ok (PathSet.equal R s o) ∧
+    Generated.PathFns.PathSet_Empty s = .ok (PathSet.isEmpty s) ∧
+    Generated.PathFns.PathSet_List R s = .ok (PathSet.list R s) :=
+  ⟨PathFnsTie.addAllSteps_eq R s p, PathFnsTie.equal_eq R s o, PathFnsTie.empty_eq s, PathFnsTie.list_eq R s⟩
+
+/-- `AddAllSteps`, about the translated source: no slice bound is out of range, and afterwards the set holds what it
+held together with exactly the non-empty prefixes of the path (up to `Equivalent`) -/
+theorem pathset_addAllSteps_generated {R : Rules Path} (hR : R.Lawful) {s : SetImpl Path} (hs : SetImpl.InvB R s)
+    (p : Path) :
+    ∃ s', Generated.PathFns.PathSet_AddAllSteps R s p = .ok s' ∧ SetImpl.InvB R s' ∧
+      ∀ y, SetImpl.abs R s' y ↔ (SetImpl.abs R s y ∨ ∃ n, 0 < n ∧ n ≤ p.length ∧ R.equiv y (p.take n) = true) := by
+  refine ⟨_, PathFnsTie.addAllSteps_eq R s p, PathSet.invB_addAll hR hs _, fun y => ?_⟩
+  rw [PathSet.abs_addAll hR hs]
+  simp only [PathSet.prefixes, List.mem_map, List.mem_range]
+  constructor
+  · rintro (h | ⟨x, ⟨i, hi, rfl⟩, hx⟩)
+    · exact Or.inl h
+    · exact Or.inr ⟨i + 1, by omega, by omega, hx⟩
+  · rintro (h | ⟨n, h0, hn, hx⟩)
+    · exact Or.inl h
+    · exact Or.inr ⟨_, ⟨n - 1, by omega, rfl⟩, by rwa [show n - 1 + 1 = n by omega]⟩
+
+/-- `Equal`, about the translated source: it decides equality of the sets of paths the two values stand for -/
+theorem pathset_equal_generated {R : Rules Path} (hR : R.Lawful) {s o : SetImpl Path}
+    (hs : SetImpl.InvB R s) (ho : SetImpl.InvB R o) :
+    ∃ b, Generated.PathFns.PathSet_Equal R s o = .ok b ∧ (b = true ↔ ∀ y, SetImpl.abs R s y ↔ SetImpl.abs R o y) :=
+  ⟨_, PathFnsTie.equal_eq R s o, PathSet.equal_iff hR hs ho⟩
+
+/-- `cty.Walk` / `walk` as written in the source (cty/walk.go; the callback a parameter, `ElementIterator` the model's
+element iteration) make the same callback invocations with the same outcome as the model's `Walk.walk` — for every
+callback, failing, pruning and panicking ones included -/
+theorem generated_walk_eq (X : SetOracle) (cb : WalkCb) (val : Value) :
+    Generated.PathFns.go_Walk X cb [] val = walk X cb val := PathFnsTie.walk_eq X cb val
+
+/-- every member exactly once, parents first — about the translated `Walk` -/
+theorem walk_preorder_once_generated {X : SetOracle} (hX : IterPerm X) (root : Value) :
+    ∃ ps : List Pos,
+      ps.length = (Generated.PathFns.go_Walk X descend [] root).1.length ∧
+      ps.Nodup ∧
+      (∀ pos, pos ∈ ps ↔ (nodeAt X root pos).isSome = true) ∧
+      (∀ i (h : i < ps.length) (h' : i < (Generated.PathFns.go_Walk X descend [] root).1.length),
+        nodeAt X root ps[i] = some ((Generated.PathFns.go_Walk X descend [] root).1[i]).2 ∧
+        pathAt X root ps[i] = some ((Generated.PathFns.go_Walk X descend [] root).1[i]).1) ∧
+      ps.Pairwise (fun a b => posLt a b = true) ∧
+      (Generated.PathFns.go_Walk X descend [] root).2 = .ok () := by
+  simp only [generated_walk_eq]
+  exact walk_preorder_once hX root
+
+/-- whatever the callback does, the translated `Walk` visits a sub-listing of the full pre-order listing -/
+theorem walk_any_callback_sublist_generated (X : SetOracle) (cb : WalkCb) (root : Value) :
+    (Generated.PathFns.go_Walk X cb [] root).1.Sublist (Generated.PathFns.go_Walk X descend [] root).1 ∨ ¬ IterPerm X := by
+  simp only [generated_walk_eq]
+  exact walk_any_callback_sublist X cb root
+
+/-- the paths the translated `Walk` reports, applied by the translated `Path.Apply`, lead back to the visited member -/
+theorem walk_apply_roundtrip_generated {X : SetOracle} (hX : IterPerm X) (root : Value)
+    (hs : shapedV root = true) (p : Path) (n : Value)
+    (hv : (p, n) ∈ (Generated.PathFns.go_Walk X descend [] root).1) :
+    ∃ pos, nodeAt X root pos = some n ∧ pathAt X root pos = some p ∧
+      (noSetAt X root pos = true →
+        ∃ a, Generated.PathFns.Path_Apply p root = .ok a ∧ a.unmark = n.unmark) := by
+  rw [generated_walk_eq] at hv
+  obtain ⟨pos, h1, h2, h3⟩ := walk_paths_lead_back_generated hX root hs p n hv
+  exact ⟨pos, h1, h2, fun h => let ⟨a, ha, hu, _⟩ := h3 h; ⟨a, ha, hu⟩⟩
 
 end C19
 end CtyModel
